@@ -31,6 +31,11 @@ pub struct Case17 {
     /// substring view, number constructors) for the tree handed to the serializer
     #[serde(default)]
     pub repr: u64,
+    /// non-zero: before the calls that are judged, the same tree is serialized with a size limit
+    /// of `prelude` per-mille of its classic length and through a writer that fails at that offset
+    /// (calls that fail half-way) in the same thread
+    #[serde(default)]
+    pub prelude: u16,
 }
 
 /// a long right spine (the shape of wgen::gen_far_repeat)
@@ -76,6 +81,7 @@ impl Scenario for C17 {
             plans: entropy_plans(rng, k),
             sched: IoSchedule::benign(rng, 48, true),
             repr: if rng.chance(1, 3) { rng.next_u64() | 1 } else { 0 },
+            prelude: if rng.chance(1, 4) { 1 + rng.below(999) as u16 } else { 0 },
         }
     }
 
@@ -87,6 +93,18 @@ impl Scenario for C17 {
             return out;
         };
         let classic_len = model::ser_len(&case.tree);
+        if case.prelude > 0 {
+            // earlier calls in this thread that fail half-way; nothing is judged here
+            let lim = (classic_len as usize).saturating_mul(case.prelude as usize) / 1000;
+            let f1 = clvmr::serde::node_to_bytes_backrefs_limit(&a, node, lim).is_err();
+            let failing = IoSchedule {
+                steps: vec![],
+                hard: Some((lim as u64, Some(crate::seams::IoKind::Other))),
+            };
+            let mut w = SimWriter::new(&failing);
+            let f2 = node_to_stream_backrefs(&a, node, &mut w).is_err();
+            out.count("fault.prior_call_failed", f1 as u64 + f2 as u64);
+        }
         let mut first: Option<Vec<u8>> = None;
         for (i, plan) in case.plans.iter().enumerate() {
             let g = EntropyGuard::install(plan);
@@ -226,6 +244,9 @@ impl Scenario for C17 {
         if case.repr != 0 {
             v.push(Case17 { repr: 0, ..case.clone() });
         }
+        if case.prelude != 0 {
+            v.push(Case17 { prelude: 0, ..case.clone() });
+        }
         v
     }
 
@@ -233,7 +254,7 @@ impl Scenario for C17 {
         json!({"tree": case.tree.brief(160), "nodes": case.tree.nodes.len(), "entropy_plans": case.plans.len()})
     }
     fn rule() -> &'static str {
-        "case = seeded sharing-heavy tree + K>=4 assignments of the identity-hasher salts (zero, ones, alternating, PRNG, low-bit-colliding, explicit words) + a benign writer schedule. Oracles: bytes identical under every salt assignment and when a run is repeated; streaming writer output equal; reference decoder and node_from_bytes_backrefs both give the tree; canonical; not longer than classic; re-serialization reproduces the bytes. Non-trivial: output contains at least one back-reference."
+        "case = seeded sharing-heavy tree + K>=4 assignments of the identity-hasher salts (zero, ones, alternating, PRNG, low-bit-colliding, explicit words) + a benign writer schedule; in a third of the cases the tree is built with a per-atom representation plan; in a quarter the judged calls are preceded, in the same thread, by a size-limited serialization and a streaming serialization of the same tree that fail half-way. Oracles: bytes identical under every salt assignment and when a run is repeated; streaming writer output equal; reference decoder and node_from_bytes_backrefs both give the tree; canonical; not longer than classic; re-serialization reproduces the bytes. Non-trivial: output contains at least one back-reference."
     }
     fn default_runs(tier: Tier) -> u64 {
         match tier {
